@@ -167,6 +167,39 @@ def work_plain(cases, seed, res):
                               for x in inter], "shapes": shapes},
                     lambda: ctg.einsum(*inter, cache_expression=False),
                     lambda: np.einsum(*inter))
+        if output == ():
+            # implicit output depends on the SPELLING of the indices: every
+            # assignment of a mixed-case symbol pool / of a non-monotone
+            # integer label pool to the indices (all k! bijections)
+            k = len(inds)
+            for perm in itertools.permutations(("B", "a", "D", "c")[:k]):
+                sym = dict(zip(inds, perm))
+                lhs2 = ",".join("".join(sym[ix] for ix in t) for t in inputs)
+                if lhs2 != lhs:
+                    compare(res, "implicit-respelled",
+                            {"call": lhs2, "shapes": shapes},
+                            lambda: ctg.einsum(lhs2, *arrays,
+                                               cache_expression=False),
+                            lambda: np.einsum(lhs2, *arrays))
+                    if len(inputs) >= 2:
+                        compare(res, "implicit-respelled-tree-output",
+                                {"call": lhs2, "shapes": shapes},
+                                lambda: np.zeros(tuple(
+                                    sd[{v: q for q, v in sym.items()}[c]]
+                                    for c in ctg.einsum_tree(
+                                        lhs2, *shapes).output)),
+                                lambda: np.zeros(np.einsum(
+                                    lhs2, *arrays).shape))
+            for perm in itertools.permutations((7, 2, 11, 0)[:k]):
+                lab = dict(zip(inds, perm))
+                inter2 = []
+                for a, t in zip(arrays, inputs):
+                    inter2 += [a, [lab[ix] for ix in t]]
+                compare(res, "interleaved-implicit-labels",
+                        {"call": [x if isinstance(x, list) else "arr"
+                                  for x in inter2], "shapes": shapes},
+                        lambda: ctg.einsum(*inter2, cache_expression=False),
+                        lambda: np.einsum(*inter2))
         # einsum_expression / einsum_tree on shapes
         if len(inputs) >= 2:
             def via_expr():
@@ -374,12 +407,15 @@ def work_labels(cases, seed, res):
         flat = [ix for t in inputs for ix in t]
         cnt = {ix: flat.count(ix) for ix in inds}
         if all((cnt[ix] == 2 and ix not in output) or
-               (cnt[ix] == 1 and ix in output) for ix in inds) and output:
-            for perm in itertools.permutations(range(len(output))):
+               (cnt[ix] == 1 and ix in output) for ix in inds):
+            # (also the full contraction, no negative label at all, and bond
+            # labels numbered from 0 as well as from 1: 0 is not negative)
+            for perm, c0 in itertools.product(
+                    itertools.permutations(range(len(output))), (1, 0)):
                 m = {}
                 for pos, p in enumerate(perm):
                     m[output[p]] = -(pos + 1)
-                c = 1
+                c = c0
                 for ix in inds:
                     if ix not in m:
                         m[ix] = c
